@@ -128,7 +128,8 @@ def operator_cases(op, dim, tier):
     """Yield (boxes, parents, cfg, draws)."""
     etas = (0, 1, 15, 20, 100)
     probs = (0.0, 0.5, 1.0) if tier == "thorough" else (0.5, 1.0)      # probability 0 never varies anything
-    boxes_list = BOXES if dim == 1 else (BOXES if tier == "thorough" else BOXES[:1] + BOXES[2:3] + BOXES[5:6])
+    # the last box has a width that overflows to infinity (ub - lb = inf): still a finite, legal box
+    boxes_list = (tuple(BOXES) + ([-1e308, 1e308], [-1.7e308, 1.0])) if dim == 1 else (BOXES if tier == "thorough" else BOXES[:1] + BOXES[2:3] + BOXES[5:6])
     for box in boxes_list:
         boxes = [box] * dim
         lat = lattice(box[0], box[1], reduced=dim > 1)
@@ -305,6 +306,27 @@ def _shard(shard, col: Collector):
                     col.nontrivial(("gen", "random", nparams, shift, 4, prec))
                     for key, msg in check_generator("random", nparams, shift, 4, prec):
                         col.violation(key, "gen", msg, {"gen": "random", "nparams": nparams, "shift": shift, "arg": 4, "precision": prec})
+        # sweep: declared precisions that are no reciprocals of integers x bounds in unlucky positions x extreme draws
+        from artap.utils import VectorAndNumbers
+        sh = shim_mod.install()
+        for prec in (0.3, 0.4, 0.6, 0.7, 0.75, 0.9, 1.5, 0.15, 0.035, 7.0):
+            for lb in (0.0, 0.35, 1.4, -0.93, -2.45, 10.05):
+                for wmul in (1.5, 2.3, 3.45, 10.2):
+                    ub = lb + wmul * prec
+                    for u in (0.0, HIGH, 0.5, 0.25, 0.75, 0.999):
+                        col.case()
+                        col.nontrivial(("gn", prec, lb, ub, u))
+                        sh.reset(1, _Forced([u]))
+                        try:
+                            v = VectorAndNumbers.gen_vector([{"name": "a", "bounds": [lb, ub], "precision": prec}])[0]
+                        except Exception as e:
+                            col.violation("C08:gen_vector:exception:%s" % type(e).__name__, "gn", "gen_vector raised %r" % (e,), {"prec": prec, "lb": lb, "ub": ub, "u": u})
+                            continue
+                        finally:
+                            sh.ctx = None
+                        if not (lb - prec / 2.0 - 1e-12 <= v <= ub + prec / 2.0 + 1e-12):
+                            col.violation("C08:gen_vector:outside-by-more-than-half-precision", "gn",
+                                          "bounds [%r, %r] precision %r draw %r -> %r" % (lb, ub, prec, u, v), {"prec": prec, "lb": lb, "ub": ub, "u": u})
         col.sample({"generator": "random", "nparams": 2, "count": 3, "precision": 1e-3}, 1)
     elif kind == "run":
         _, name, N, G, nparams, boxset, seed, bound, part, nparts = shard[:10]
@@ -325,6 +347,16 @@ def replay(sub, case):
                               case["cfg"], tuple(case["draws"]))[0]
     if sub == "gen":
         return check_generator(case["gen"], case["nparams"], case["shift"], case["arg"], case["precision"])
+    if sub == "gn":
+        from artap.utils import VectorAndNumbers
+        sh = shim_mod.install()
+        sh.reset(1, _Forced([case["u"]]))
+        try:
+            v = VectorAndNumbers.gen_vector([{"name": "a", "bounds": [case["lb"], case["ub"]], "precision": case["prec"]}])[0]
+        finally:
+            sh.ctx = None
+        ok = case["lb"] - case["prec"] / 2.0 - 1e-12 <= v <= case["ub"] + case["prec"] / 2.0 + 1e-12
+        return [] if ok else [("C08:gen_vector:outside-by-more-than-half-precision", "got %r" % (v,))]
     if sub == "run":
         ctx, out = run_once(run_body_factory(case["name"], case["N"], case["G"], case["nparams"], case["boxset"], case["seed"],
                                              case.get("on_bounds", False)), case["choices"])
